@@ -76,9 +76,38 @@ KERNELS2 = [
          params=[("tableau", "MT"), ("pivot", "Z"), ("slack_start", "Z"), ("argmins", "LZ"),
                  ("tol_piv", "T"), ("tol_ratio_diff", "T")], rtype=("B", "Z"), fuels={}),
 ]
+LPS = "quantecon/optimize/linprog_simplex.py"
+KERNELS2 += [
+    dict(cname="pivot_col", file=LPS, py="_pivot_col",
+         params=[("tableau", "MT"), ("skip_aux", "B"), ("piv_options", "PO")], rtype=("B", "Z"), fuels={}),
+    dict(cname="solve_tableau", file=LPS, py="solve_tableau",
+         params=[("tableau", "MT"), ("basis", "LZ"), ("max_iter", "Z"), ("skip_aux", "B"), ("piv_options", "PO")],
+         rtype=("B", "Z", "Z"), fuels={0: "Z.to_nat max_iter"}),
+]
+KERNELS2 += [
+    dict(cname="set_criterion_row", file=LPS, py="_set_criterion_row",
+         params=[("c", "LT"), ("basis", "LZ"), ("tableau", "MT")], rtype=None, fuels={}),
+    dict(cname="get_solution", file=LPS, py="get_solution",
+         params=[("tableau", "MT"), ("basis", "LZ"), ("x", "LT"), ("lambd", "LT"), ("b_signs", "LB")], rtype="T", fuels={}),
+]
+LEM = "quantecon/optimize/lcp_lemke.py"
+KERNELS2 += [
+    dict(cname="lemke_initialize_tableau", file=LEM, py="_initialize_tableau",
+         params=[("M", "MT"), ("q", "LT"), ("d", "LT"), ("tableau", "MT"), ("basis", "LZ")], rtype=None, fuels={}),
+    dict(cname="lemke_get_solution", file=LEM, py="_get_solution",
+         params=[("tableau", "MT"), ("basis", "LZ"), ("z", "LT")], rtype=None, fuels={}),
+    # d, tableau, basis, z (default None in the source) are translated as supplied arrays
+    dict(cname="lcp_lemke", file=LEM, py="lcp_lemke",
+         params=[("M", "MT"), ("q", "LT"), ("d", "LT"), ("max_iter", "Z"), ("piv_options", "PO"),
+                 ("tableau", "MT"), ("basis", "LZ"), ("z", "LT")],
+         rtype=("B", "Z", "Z"), fuels={0: "Z.to_nat (max_iter - 1)"}, result_nt="LCPResult"),
+]
+# PO: the namedtuple PivOptions(fea_tol, tol_piv, tol_ratio_diff), flattened into three element parameters
+PO_FIELDS = ["fea_tol", "tol_piv", "tol_ratio_diff"]
+PO_DEFAULTS = ["FEA_TOL", "TOL_PIV", "TOL_RATIO_DIFF"]     # PivOptions.__new__.__defaults__ (checked in generate2)
 CALLABLE = {}
 CALL2 = {}    # python name -> dict(coq, params, rtype, outs, amb, defaults, modconsts)
-COQTY = {"Z": "Z", "T": "T", "B": "bool", "LT": "list T", "LZ": "list Z", "MT": "list (list T)"}
+COQTY = {"Z": "Z", "T": "T", "B": "bool", "LT": "list T", "LZ": "list Z", "MT": "list (list T)", "LB": "list bool"}
 ELT = {"LT": "T", "LZ": "Z"}
 
 
@@ -112,11 +141,29 @@ Definition nrows2 {A} (a : list (list A)) : Z := Z.of_nat (length a).
 Definition ncols2 {A} (a : list (list A)) : Z := Z.of_nat (length (nth 0%nat a [])).
 (* a[:-1, :] *)
 Definition droplast2 {A} (a : list (list A)) : list (list A) := firstn (length a - 1) a.
+(* slice stores a[sel] = v, a[sel, sel] = v.  A dimension is selected by an index (Ix i, wrapped) or by lo:hi
+   (Sl; bounds clipped to [0, size] after wraparound as in NumPy; BndEnd = omitted upper bound) *)
+Inductive bnd := Bnd (i : Z) | BndEnd.
+Inductive dimsel := Sl (lo hi : bnd) | Ix (i : Z).
+Definition bnd_val (b : bnd) (n : nat) : Z :=
+  match b with Bnd i => Z.min (Z.of_nat n) (Z.max 0 (widx i n)) | BndEnd => Z.of_nat n end.
+Definition sel_lo (s : dimsel) (n : nat) : Z := match s with Sl lo _ => bnd_val lo n | Ix i => widx i n end.
+Definition sel_hi (s : dimsel) (n : nat) : Z := match s with Sl _ hi => bnd_val hi n | Ix i => widx i n + 1 end.
+Fixpoint mapz_from {A} (f : Z -> A -> A) (i : Z) (l : list A) : list A :=
+  match l with [] => [] | x :: r => f i x :: mapz_from f (i + 1) r end.
+Definition fill1 {A} (r : list A) (s : dimsel) (v : A) : list A :=
+  mapz_from (fun j x => if (sel_lo s (length r) <=? j) && (j <? sel_hi s (length r)) then v else x) 0 r.
+Definition fill2 {A} (a : list (list A)) (rs cs : dimsel) (v : A) : list (list A) :=
+  mapz_from (fun i row => if (sel_lo rs (length a) <=? i) && (i <? sel_hi rs (length a)) then fill1 row cs v else row) 0 a.
 """
 
 
 class Unsupported(Exception):
     pass
+
+
+COQ_KEYWORDS = {"fun", "match", "end", "let", "in", "if", "then", "else", "fix", "cofix", "forall", "exists", "with", "as",
+                "at", "return", "using", "where", "struct", "Type", "Set", "Prop", "SProp", "for", "IF", "exists2", "by"}
 
 
 def find_func(tree, name):
@@ -138,7 +185,8 @@ def is_cond(e):
 
 
 class Tr:
-    def __init__(self, cname, fn, ptypes, rtype, fuels, checked, v2=False, modconsts=None):
+    def __init__(self, cname, fn, ptypes, rtype, fuels, checked, v2=False, modconsts=None, file=None, imports=None,
+                 result_nt=None):
         self.cname, self.fn, self.rtype, self.fuels, self.checked = cname, fn, rtype, fuels, checked
         self.types = dict(ptypes)
         self.params = [p for p, _ in ptypes]
@@ -150,6 +198,21 @@ class Tr:
         self.amb = []                   # extra leading element parameters (inf_, module constants), in order of first use
         self.amb_stack = []
         self.modconsts = modconsts or {}
+        self.file, self.imports = file, imports or {}
+        self.result_nt = result_nt      # (namedtuple name, index of the array field) of the `return NT(arr, scalars..)` form
+        self.ntmp = 0
+        self.optional_supplied = []
+        self.binders = []               # (name, type) with PO parameters flattened
+        for pn, t in ptypes:
+            if t == "PO":
+                if not v2:
+                    raise Unsupported("PivOptions parameter")
+                for f in PO_FIELDS:
+                    self.types["%s_%s" % (pn, f)] = "T"
+                    self.binders.append(("%s_%s" % (pn, f), "T"))
+                self.generic = True
+            else:
+                self.binders.append((pn, t))
         if checked:
             self.types["ok__"] = "B"
 
@@ -172,6 +235,8 @@ class Tr:
                 if isinstance(e.slice, ast.Tuple) and len(e.slice.elts) == 2 and all(self.ty(x) == "Z" for x in e.slice.elts):
                     return "T"
                 raise Unsupported("2-d subscript %s" % ast.unparse(e))
+            if self.v2 and t == "LB" and self.ty(e.slice) == "Z":
+                return "B"
             if t not in ("LT", "LZ"):
                 raise Unsupported("subscript of non-array")
             return {"LT": "T", "LZ": "Z"}[t]
@@ -195,6 +260,15 @@ class Tr:
             return ts
         if self.v2 and isinstance(e, ast.Attribute) and ast.unparse(e) == "np.inf":
             return "T"
+        if self.v2 and self.po_field(e):
+            return "T"
+        if self.v2 and self.np_empty_int(e) is not None:
+            return "LZ"
+        if self.v2 and isinstance(e, ast.Attribute) and e.attr == "size" and isinstance(e.value, ast.Name) \
+                and self.types.get(e.value.id) in ("LT", "LZ"):
+            return "Z"
+        if self.v2 and self.all_nonneg(e):
+            return "B"
         if isinstance(e, ast.UnaryOp) and isinstance(e.op, ast.USub):
             return self.ty(e.operand)
         if isinstance(e, ast.Call):
@@ -213,11 +287,44 @@ class Tr:
         return e.func.id if isinstance(e.func, ast.Name) else ast.unparse(e.func)
 
     # ---------------- Kernels2 helpers
+    def callee(self, call):
+        """the Kernels2 kernel a call refers to: a function of this file, or one imported by `from .mod import f`"""
+        f = self.callname(call)
+        if (self.file, f) in CALL2:
+            return CALL2[(self.file, f)]
+        if f in self.imports and (self.imports[f], f) in CALL2:
+            return CALL2[(self.imports[f], f)]
+        return None
+
     def shape_of(self, e):
         """e is `a.shape` of an array variable: its name, else None"""
         if isinstance(e, ast.Attribute) and e.attr == "shape" and isinstance(e.value, ast.Name) \
                 and self.types.get(e.value.id) in ("MT", "LT", "LZ"):
             return e.value.id
+        return None
+
+    def all_nonneg(self, e):
+        """e is `(a >= 0).all()` for a 1-d element array a: its name, else None"""
+        if isinstance(e, ast.Call) and not e.args and not e.keywords and isinstance(e.func, ast.Attribute) and e.func.attr == "all":
+            c = e.func.value
+            if isinstance(c, ast.Compare) and len(c.ops) == 1 and isinstance(c.ops[0], ast.GtE) and isinstance(c.left, ast.Name) \
+                    and self.types.get(c.left.id) == "LT" and self.intlit(c.comparators[0]) == 0:
+                return c.left.id
+        return None
+
+    def po_field(self, e):
+        """e is `p.field` of a PivOptions parameter: the flattened variable name, else None"""
+        if isinstance(e, ast.Attribute) and isinstance(e.value, ast.Name) and self.types.get(e.value.id) == "PO" \
+                and e.attr in PO_FIELDS:
+            return "%s_%s" % (e.value.id, e.attr)
+        return None
+
+    def np_empty_int(self, e):
+        """e is `np.empty(n, dtype=np.int_)`: the size expression, else None"""
+        if isinstance(e, ast.Call) and ast.unparse(e.func) == "np.empty" and len(e.args) == 1 and len(e.keywords) == 1 \
+                and e.keywords[0].arg == "dtype" and ast.unparse(e.keywords[0].value) == "np.int_" \
+                and not isinstance(e.args[0], ast.Tuple) and self.ty(e.args[0]) == "Z":
+            return e.args[0]
         return None
 
     def shape_ex(self, arr, k):
@@ -261,11 +368,23 @@ class Tr:
         if isinstance(e, ast.Attribute) and ast.unparse(e) == "np.iinfo(np.intp).max":
             return "9223372036854775807"
         if isinstance(e, ast.UnaryOp) and isinstance(e.op, ast.USub):
+            if self.v2 and self.ty(e.operand) == "T":
+                return "(nsub nzero %s)" % self.ex(e.operand)   # -x as 0 - x (differs from IEEE negation only in the sign of zero)
             if self.ty(e.operand) != "Z":
                 raise Unsupported("element negation")
             return "(- %s)" % self.ex(e.operand)
         if self.v2 and isinstance(e, ast.Attribute) and ast.unparse(e) == "np.inf":
             return self.use_amb("inf_")
+        if self.v2 and self.po_field(e):
+            return self.po_field(e)
+        if self.v2 and isinstance(e, ast.Attribute) and e.attr == "size":
+            self.ty(e)
+            return "(Z.of_nat (length %s))" % e.value.id
+        if self.v2 and self.all_nonneg(e):
+            return "(forallb (fun x__ => nleb nzero x__) %s)" % self.all_nonneg(e)
+        if self.v2 and self.np_empty_int(e) is not None:
+            # uninitialised memory: modelled as zeros; consumers' tie lemmas hold for ANY contents of that length
+            return "(repeat 0 (Z.to_nat %s))" % self.ex(self.np_empty_int(e))
         if self.v2 and isinstance(e, ast.Tuple):
             self.ty(e)
             return "(" + ", ".join(self.ex(x) for x in e.elts) + ")"
@@ -309,6 +428,12 @@ class Tr:
     def cond(self, e):
         if isinstance(e, ast.Constant) and isinstance(e.value, bool):
             return "true" if e.value else "false"
+        if self.v2 and self.all_nonneg(e):
+            return self.ex(e)
+        if self.v2 and isinstance(e, ast.Compare) and len(e.ops) == 2:
+            # a op b op c: the operands are pure, so this is (a op b) and (b op c)
+            return "(%s && %s)" % (self.cond(ast.Compare(left=e.left, ops=[e.ops[0]], comparators=[e.comparators[0]])),
+                                   self.cond(ast.Compare(left=e.comparators[0], ops=[e.ops[1]], comparators=[e.comparators[1]])))
         if isinstance(e, ast.BoolOp):
             op = "||" if isinstance(e.op, ast.Or) else "&&"
             return "(" + (" %s " % op).join(self.cond(v) for v in e.values) + ")"
@@ -316,6 +441,9 @@ class Tr:
             return "(negb %s)" % self.cond(e.operand)
         if isinstance(e, ast.Name) and self.ty(e) == "B":
             return e.id
+        if self.v2 and isinstance(e, ast.Subscript) and isinstance(e.value, ast.Name) and self.types.get(e.value.id) == "LB" \
+                and self.ty(e) == "B":
+            return "(nth (Z.to_nat %s) %s false)" % (self.ex(e.slice), e.value.id)
         if isinstance(e, ast.Compare) and len(e.ops) == 1:
             a, b = e.left, e.comparators[0]
             ta, tb = self.ty(a), self.ty(b)
@@ -392,8 +520,8 @@ class Tr:
                 out.append(v)
         for s in stmts:
             for n in ast.walk(s):
-                if self.v2 and isinstance(n, ast.Call) and self.callname(n) in CALL2:
-                    info = CALL2[self.callname(n)]
+                if self.v2 and isinstance(n, ast.Call) and self.callee(n):
+                    info = self.callee(n)
                     for pname, a in self.bind_args(n, info).items():
                         if pname in info["outs"]:
                             if not isinstance(a, ast.Name):
@@ -453,6 +581,16 @@ class Tr:
                 if k["end_proc"] is None:
                     raise Unsupported("bare return")
                 return k["end_proc"]()
+            if self.v2 and self.rtype is not None and self.result_nt and isinstance(s.value, ast.Call) \
+                    and self.callname(s.value) == self.result_nt and not s.value.keywords and len(s.value.args) >= 3 \
+                    and isinstance(s.value.args[0], ast.Name) and s.value.args[0].id in self.outs:
+                tup = ast.Tuple(elts=list(s.value.args[1:]), ctx=ast.Load())   # the array field is among the stored arrays
+                return self.stmts([ast.Return(value=tup)] + rest, k)
+            if self.v2 and self.rtype is None and isinstance(s.value, ast.Tuple) and s.value.elts \
+                    and all(isinstance(x, ast.Name) and x.id in self.outs for x in s.value.elts):
+                if k["end_proc"] is None:
+                    raise Unsupported("return inside a loop of a procedure")
+                return k["end_proc"]()
             if self.v2 and self.rtype is None and isinstance(s.value, ast.Name) and s.value.id in self.outs:
                 if k["end_proc"] is None:
                     raise Unsupported("return inside a loop of a procedure")
@@ -472,8 +610,17 @@ class Tr:
                 value = ast.BinOp(left=tgt, op=s.op, right=s.value)
             else:
                 value = s.value
-            if self.v2 and isinstance(value, ast.Call) and self.callname(value) in CALL2:
+            if self.v2 and isinstance(value, ast.Call) and self.callee(value):
                 return self.call_stmt(tgt, value, rest, k)
+            if self.v2 and isinstance(tgt, ast.Tuple) and isinstance(value, ast.Tuple) and len(tgt.elts) == len(value.elts) \
+                    and not all(isinstance(x, ast.Name) for x in tgt.elts):
+                tmps = []
+                for v in value.elts:
+                    tmps.append("tmp%d__" % self.ntmp)
+                    self.ntmp += 1
+                new = [ast.Assign(targets=[ast.Name(id=t, ctx=ast.Store())], value=v) for t, v in zip(tmps, value.elts)]
+                new += [ast.Assign(targets=[x], value=ast.Name(id=t, ctx=ast.Load())) for t, x in zip(tmps, tgt.elts)]
+                return self.stmts(new + rest, k)
             if self.v2 and isinstance(tgt, ast.Tuple) and all(isinstance(x, ast.Name) for x in tgt.elts):
                 names = [x.id for x in tgt.elts]
                 if self.shape_of(value) and self.types[self.shape_of(value)] == "MT" and len(names) == 2:
@@ -497,6 +644,24 @@ class Tr:
                 for nme, v in reversed(list(zip(names, vals))):
                     body_txt = "let %s := %s in\n%s" % (nme, v, body_txt)
                 return self.guard([value], body_txt)
+            if self.v2 and isinstance(s, ast.Assign) and isinstance(tgt, ast.Subscript) and isinstance(tgt.value, ast.Name) \
+                    and self.types.get(tgt.value.id) in ("MT", "LT") and self.has_slice(tgt.slice):
+                arr = tgt.value.id
+                val = self.exT(value, "T")
+                dims = tgt.slice.elts if isinstance(tgt.slice, ast.Tuple) else [tgt.slice]
+                if len(dims) != (2 if self.types[arr] == "MT" else 1) or self.reads_ok(value):
+                    raise Unsupported("slice store %s" % ast.unparse(s))
+                sels = [self.dimsel(d) for d in dims]
+                oks = [r for d in dims if not isinstance(d, ast.Slice) for r in [self.reads_ok(d)] if r]
+                if self.types[arr] == "MT":
+                    if not isinstance(dims[0], ast.Slice):
+                        oks.append("inb (widx %s (length %s)) %s" % (self.ex(dims[0]), arr, arr))
+                    if not isinstance(dims[1], ast.Slice):
+                        raise Unsupported("column index with row slice in %s" % ast.unparse(s))
+                    txt = "let %s := fill2 %s %s %s %s in\n%s" % (arr, arr, sels[0], sels[1], val, self.stmts(rest, k))
+                else:
+                    txt = "let %s := fill1 %s %s %s in\n%s" % (arr, arr, sels[0], val, self.stmts(rest, k))
+                return "let ok__ := ok__ && %s in\n%s" % (" && ".join(oks), txt) if oks else txt
             if self.v2 and isinstance(tgt, ast.Subscript) and isinstance(tgt.value, ast.Name) \
                     and self.types.get(tgt.value.id) == "MT":
                 arr = tgt.value.id
@@ -514,7 +679,8 @@ class Tr:
                     raise Unsupported("variable %s changes type" % tgt.id)
                 if tgt.id in self.params and self.types[tgt.id] in ("LT", "LZ", "MT"):
                     raise Unsupported("rebinding array parameter %s" % tgt.id)
-                if isinstance(t, tuple) or t in ("LT", "LZ", "MT"):
+                if isinstance(t, tuple) or t in ("LT", "MT", "PO") or \
+                        (t == "LZ" and not (self.v2 and self.np_empty_int(value) is not None and tgt.id not in self.types)):
                     raise Unsupported("assignment of %s" % ast.unparse(value))
                 val = self.exT(value, t) if self.v2 else self.ex(value)
                 txt_guard = [value]
@@ -581,9 +747,43 @@ class Tr:
             return self.loop(s, rest, k)
         if isinstance(s, ast.Expr) and isinstance(s.value, ast.Constant):
             return self.stmts(rest, k)
-        if self.v2 and isinstance(s, ast.Expr) and isinstance(s.value, ast.Call) and self.callname(s.value) in CALL2:
+        if self.v2 and isinstance(s, ast.Expr) and isinstance(s.value, ast.Call) and self.callee(s.value):
             return self.call_stmt(None, s.value, rest, k)
         raise Unsupported("statement %s" % type(s).__name__)
+
+    def none_default(self, s):
+        """top-level `if p is None: p = np.empty(..) | np.ones(..)` for an array parameter p=None that the kernel
+        specification declares as an array: the kernel is translated for the call path where p is supplied"""
+        if not (isinstance(s, ast.If) and isinstance(s.test, ast.Compare) and len(s.test.ops) == 1
+                and isinstance(s.test.ops[0], ast.Is) and isinstance(s.test.left, ast.Name)
+                and isinstance(s.test.comparators[0], ast.Constant) and s.test.comparators[0].value is None):
+            return False
+        pn = s.test.left.id
+        ok_body = (len(s.body) == 1 and isinstance(s.body[0], ast.Assign) and len(s.body[0].targets) == 1
+                   and isinstance(s.body[0].targets[0], ast.Name) and s.body[0].targets[0].id == pn
+                   and isinstance(s.body[0].value, ast.Call) and ast.unparse(s.body[0].value.func) in ("np.empty", "np.ones"))
+        if pn in self.params and self.types[pn] in ("LT", "LZ", "MT") and self.defaults.get(pn) is not None \
+                and ast.unparse(self.defaults[pn]) == "None" and not s.orelse and ok_body:
+            self.optional_supplied.append(pn)
+            return True
+        raise Unsupported("test %s" % ast.unparse(s.test))
+
+    def has_slice(self, sl):
+        return isinstance(sl, ast.Slice) or (isinstance(sl, ast.Tuple) and any(isinstance(x, ast.Slice) for x in sl.elts))
+
+    def dimsel(self, d):
+        """one dimension of a slice store: `lo:hi` (either may be omitted, negative = from the end) or an index"""
+        if isinstance(d, ast.Slice):
+            if d.step is not None:
+                raise Unsupported("slice step")
+            for b in (d.lower, d.upper):
+                if b is not None and (self.ty(b) != "Z" or self.reads_ok(b)):
+                    raise Unsupported("slice bound %s" % ast.unparse(b))
+            return "(Sl %s %s)" % ("(Bnd 0)" if d.lower is None else "(Bnd %s)" % self.ex(d.lower),
+                                   "BndEnd" if d.upper is None else "(Bnd %s)" % self.ex(d.upper))
+        if self.ty(d) != "Z":
+            raise Unsupported("index %s" % ast.unparse(d))
+        return "(Ix %s)" % self.ex(d)
 
     def bind_args(self, call, info):
         """parameter name -> argument expression (ast), positional + keyword; omitted ones are absent"""
@@ -602,7 +802,7 @@ class Tr:
         if isinstance(a, ast.Name) and self.types.get(a.id) == want:
             return a.id
         if want == "MT" and isinstance(a, ast.Subscript) and isinstance(a.value, ast.Name) \
-                and self.types.get(a.value.id) == "MT" and ast.unparse(a.slice) in ("(slice(None, -1, None), slice(None, None, None))", ":-1, :"):
+                and self.types.get(a.value.id) == "MT" and ast.unparse(a.slice) in ("(:-1, :)", ":-1, :"):
             return "(droplast2 %s)" % a.value.id
         raise Unsupported("array argument %s" % ast.unparse(a))
 
@@ -610,11 +810,11 @@ class Tr:
         """`f(..)`, `x = f(..)`, `x, y = f(..)` with f a Kernels2 kernel: f returns (value, stored arrays.., ok__)"""
         if not self.checked:
             raise Unsupported("call with effects from an unchecked kernel")
-        info = CALL2[self.callname(call)]
+        info = self.callee(call)
         m = self.bind_args(call, info)
         args, read_exprs, outnames = [], [], []
         for pname, ptype in info["params"]:
-            if pname not in m:
+            if pname not in m and ptype != "PO":
                 d = info["defaults"].get(pname)
                 if isinstance(d, ast.Name) and d.id in info["modconsts"] and ptype == "T":
                     args.append(self.use_amb(d.id))      # module-level float constant: extra parameter of this kernel
@@ -624,6 +824,14 @@ class Tr:
                     args.append("%d" % d.value if d.value >= 0 else "(%d)" % d.value)
                 else:
                     raise Unsupported("omitted argument %s of %s" % (pname, ast.unparse(call)))
+                continue
+            if ptype == "PO":
+                if pname not in m and ast.unparse(info["defaults"].get(pname, ast.Constant(value=0))) == "PivOptions()":
+                    args += [self.use_amb(c) for c in PO_DEFAULTS]
+                elif pname in m and isinstance(m[pname], ast.Name) and self.types.get(m[pname].id) == "PO":
+                    args += ["%s_%s" % (m[pname].id, f) for f in PO_FIELDS]
+                else:
+                    raise Unsupported("PivOptions argument of %s" % ast.unparse(call))
                 continue
             a = m[pname]
             if pname in info["outs"]:
@@ -703,7 +911,9 @@ class Tr:
         has_ret = any(isinstance(n, ast.Return) for st in s.body for n in ast.walk(st))
         known = [v for v in pre if v not in carried and v != ivar]
         used = set(n.id for st in ([s.test] if not is_for else []) + list(s.body) for n in ast.walk(st) if isinstance(n, ast.Name))
-        free = [v for v in known if v in used]
+        free = [x for v in known if v in used
+                for x in (["%s_%s" % (v, f) for f in PO_FIELDS] if pre[v] == "PO" else [v])]
+        free = [v for i, v in enumerate(free) if v not in free[:i]]
         ctuple = self.tuple_of(carried) if carried else "tt"
         binders = " ".join("(%s : %s)" % (v, COQTY[pre[v]]) for v in ([ivar] if ivar else []) + carried + free)
         ctype = " * ".join(COQTY[pre[v]] for v in carried) if carried else "unit"
@@ -764,6 +974,14 @@ class Tr:
         if self.v2 and (fa.vararg or fa.kwarg or fa.kwonlyargs or fa.posonlyargs):
             raise Unsupported("parameter list of %s" % self.fn.name)
         self.defaults = dict(zip(pnames[len(pnames) - len(fa.defaults):], fa.defaults))
+        if self.v2:
+            allnames = set(x.id for x in ast.walk(self.fn) if isinstance(x, ast.Name)) | set(self.types)
+            for nd in ast.walk(self.fn):      # python names that are Gallina keywords get a trailing underscore
+                if isinstance(nd, ast.Name) and nd.id in COQ_KEYWORDS:
+                    if nd.id + "_" in allnames:
+                        raise Unsupported("name clash %s_" % nd.id)
+                    nd.id += "_"
+            body = [st for st in body if not self.none_default(st)]
         # procedures return the arrays they store into (in parameter order)
         stored = [v for v in self.assigned(body) if v in self.params and self.types[v] in ("LT", "LZ", "MT")]
         self.outs = [p for p in self.params if p in stored]
@@ -780,7 +998,10 @@ class Tr:
         txt = self.stmts(body, k)
         if self.checked:
             txt = "let ok__ := true in\n" + txt
-        binders = " ".join("(%s : %s)" % (p, COQTY[dict(zip(self.params, [self.types[p] for p in self.params]))[p]]) for p in self.params)
+        if self.v2:
+            binders = " ".join("(%s : %s)" % (p, COQTY[t]) for p, t in self.binders)
+        else:
+            binders = " ".join("(%s : %s)" % (p, COQTY[dict(zip(self.params, [self.types[p] for p in self.params]))[p]]) for p in self.params)
         binders = "".join("(%s : T) " % a for a in self.amb) + binders
         ctx = "{T : Type} `{Num T} " if self.generic else ""
         main = "Definition %s %s%s : %s :=\n%s." % (self.cname, ctx, binders, self.result_type(), txt)
@@ -822,15 +1043,35 @@ def generate2():
         tree = ast.parse(src)
         fn = find_func(tree, spec["py"])
         rtype = spec["rtype"]
+        if any(t == "PO" for _, t in spec["params"]):
+            ptree = ast.parse(open(os.path.join(REPO, LPS)).read())
+            if spec["file"] != LPS and not any(isinstance(n, ast.ImportFrom) and n.level == 1 and n.module == "linprog_simplex"
+                                               and any(a.name == "PivOptions" and a.asname is None for a in n.names) for n in tree.body):
+                raise Unsupported("PivOptions is not imported from linprog_simplex")
+            flds = [n for n in ptree.body if isinstance(n, ast.Assign) and ast.unparse(n.targets[0]) == "PivOptions"]
+            dfl = [n for n in ptree.body if isinstance(n, ast.Assign) and ast.unparse(n.targets[0]) == "PivOptions.__new__.__defaults__"]
+            if len(flds) != 1 or ast.unparse(flds[0].value) != "namedtuple('PivOptions', %r)" % (PO_FIELDS,) \
+                    or len(dfl) != 1 or ast.unparse(dfl[0].value) != "(%s)" % ", ".join(PO_DEFAULTS):
+                raise Unsupported("definition of PivOptions changed")
+        if spec.get("result_nt"):
+            nts = [n for n in tree.body if isinstance(n, ast.Assign) and ast.unparse(n.targets[0]) == spec["result_nt"]]
+            if len(nts) != 1 or not ast.unparse(nts[0].value).startswith("namedtuple('%s', ['z', 'success', 'status', 'num_iter'])" % spec["result_nt"]):
+                raise Unsupported("definition of %s changed" % spec["result_nt"])
+        imports = {}
+        for n in tree.body:
+            if isinstance(n, ast.ImportFrom) and n.level == 1 and n.module:
+                for a in n.names:
+                    imports[a.asname or a.name] = os.path.join(os.path.dirname(spec["file"]), n.module + ".py")
         tr = Tr("gen_" + spec["cname"], fn, spec["params"], rtype, spec["fuels"], True, v2=True,
-                modconsts=module_consts(tree))
+                modconsts=module_consts(tree), file=spec["file"], imports=imports, result_nt=spec.get("result_nt"))
         text = tr.translate()
         sig = "returns (%s, ok__)" % ", ".join((["value"] if rtype is not None else []) + tr.outs)
-        parts.append("(* ---- %s :: %s  [bounds-checked: %s]%s ---- *)" % (
-            spec["file"], spec["py"], sig, ("  extra parameters: " + " ".join(tr.amb)) if tr.amb else ""))
+        parts.append("(* ---- %s :: %s  [bounds-checked: %s]%s%s ---- *)" % (
+            spec["file"], spec["py"], sig, ("  extra parameters: " + " ".join(tr.amb)) if tr.amb else "",
+            ("  optional arrays taken as supplied: " + " ".join(tr.optional_supplied)) if tr.optional_supplied else ""))
         parts.append(text)
         parts.append("")
-        CALL2[spec["py"]] = dict(coq="gen_" + spec["cname"], params=spec["params"], rtype=rtype, outs=list(tr.outs),
+        CALL2[(spec["file"], spec["py"])] = dict(coq="gen_" + spec["cname"], params=spec["params"], rtype=rtype, outs=list(tr.outs),
                                  amb=list(tr.amb), defaults=tr.defaults, modconsts=tr.modconsts)
     return "\n".join(parts)
 
